@@ -682,6 +682,14 @@ def r13(ctx):
     ctx.floor("C16.R13", 1)
 
 
+def r14(ctx):
+    """"removing a document is refused while it is open" counts the engine's own handle like any other: the engine holds one exactly
+    while it has the document joined - joined is recorded only after its open succeeded, and leaving releases exactly that handle
+    (LiveActor::start_sync / leave evaluated against a model of the joined set, = C14.R9)"""
+    from . import livefw
+    livefw.check_join_leave(ctx, "C16.R14")
+    ctx.floor("C16.R14", 4)
+
 def run(ctx):
     ctx.run_rule("C16.R1", r1)
     ctx.run_rule("C16.R2", r2)
@@ -696,3 +704,4 @@ def run(ctx):
     ctx.run_rule("C16.R11", r11)
     ctx.run_rule("C16.R12", r12)
     ctx.run_rule("C16.R13", r13)
+    ctx.run_rule("C16.R14", r14)
